@@ -111,6 +111,12 @@ class Cmp(object):
 
 vcmp = np.vectorize(Cmp)
 
+def _has_nan(value):
+    """does value, or any member of a list/tuple value, hold a nan? native ordering is not total then"""
+    if isinstance(value, (list, tuple)):
+        return any(_has_nan(v) for v in value)
+    return isinstance(value, (float, np.floating)) and value != value
+
 def sort(iterable):
     """
     implements sorting allowing for comparing of not-same-type objects
@@ -133,10 +139,13 @@ def sort(iterable):
     >>> sort([1,3,2,None]) == [None, 1, 2, 3]
 
     """
-    try:
-        return sorted(iterable)
-    except TypeError:
-        return sorted(iterable, key = Cmp)
+    values = list(iterable)
+    if not _has_nan(values):
+        try:
+            return sorted(values)
+        except TypeError:
+            pass
+    return sorted(values, key = Cmp)
 
 
 # def _type(x):
